@@ -38,76 +38,89 @@ theorem take_of_take_succ {α : Type} {st pfx : List α} {k : α} {n : Nat}
   rw [List.take_take] at this
   simpa [Nat.min_eq_left (Nat.le_succ n), List.take_append_of_le_length (Nat.le_of_eq hl.symm), ← hl] using this
 
+def Node.isContainer : Node → Bool
+  | .block _ _ _ => true
+  | .sect _ _ _ _ => true
+  | _ => false
+
 /-- `seen → no assignment follows` : once a sub-block has been rendered, the remaining children contribute
 no bullet of their own. -/
 theorem assignsFirst_true_of_false : ∀ (ns : List Node), assignsFirst true ns = true → assignsFirst false ns = true
   | [], _ => by simp [assignsFirst]
   | .assign _ _ _ :: ns, h => by simp [assignsFirst] at h
   | .block _ _ _ :: ns, h => by simpa [assignsFirst] using h
-  | .sect _ _ _ _ :: ns, h => by
-    simp only [assignsFirst] at h ⊢; exact assignsFirst_true_of_false ns h
+  | .sect _ _ _ _ :: ns, h => by simpa [assignsFirst] using h
   | .comment _ _ :: ns, h => by
     simp only [assignsFirst] at h ⊢; exact assignsFirst_true_of_false ns h
 
 mutual
-/-- Scanning the lines of one child of a block rendered at heading level `lvl`, below the heading path `pfx`
+/-- Scanning the lines of one child of a block / section rendered at heading level `lvl`, below the heading path `pfx`
 (`|pfx| = lvl - 2`): the bullets found are exactly the child's leaves under `pfx`, and the heading stack still
 starts with `pfx` afterwards.  `seen = false` means no sibling sub-block was rendered yet, and then the stack IS `pfx`. -/
 theorem mdNode_scan (fmt : Value → Str) : ∀ (n : Node) (lvl : Nat) (pfx st : List Str) (seen : Bool),
     2 ≤ lvl → pfx.length = lvl - 2 → st.take (lvl - 2) = pfx → (seen = false → st = pfx) →
-    noSectionsNode n = true → mdOrderedNode n = true → assignsFirst seen [n] = true →
+    mdOrderedNode n = true → assignsFirst seen [n] = true →
     mdScan st (mdNode fmt lvl n) = n.leaves.map (mdLeaf fmt pfx)
       ∧ (mdState st (mdNode fmt lvl n)).take (lvl - 2) = pfx
-      ∧ (seen = false → (∀ a k cs, n ≠ .block a k cs) → mdState st (mdNode fmt lvl n) = pfx)
-  | .assign _ k v, lvl, pfx, st, seen, _, _, htk, hst, _, _, haf => by
+      ∧ (seen = false → n.isContainer = false → mdState st (mdNode fmt lvl n) = pfx)
+  | .assign _ k v, lvl, pfx, st, seen, _, _, htk, hst, _, haf => by
     have hseen : seen = false := by cases seen <;> simp_all [assignsFirst]
     have : st = pfx := hst hseen
     subst this
     simp [mdNode, mdScan, mdState, Node.leaves, mdLeaf, htk]
-  | .block _ k cs, lvl, pfx, st, seen, hl, hpl, htk, _, hs, ho, _ => by
-    simp only [noSectionsNode] at hs
+  | .block _ k cs, lvl, pfx, st, seen, hl, hpl, htk, _, ho, _ => by
     simp only [mdOrderedNode, Bool.and_eq_true] at ho
     have hlvl : lvl + 1 - 2 = (lvl - 2) + 1 := by omega
     have hpl' : (pfx ++ [k]).length = lvl + 1 - 2 := by simp [hpl, hlvl]
     have h := mdChildren_scan fmt cs (lvl + 1) (pfx ++ [k]) (pfx ++ [k]) false (by omega) hpl'
-      (by rw [← hpl']; exact List.take_length) (fun _ => rfl) hs ho.2 ho.1
+      (by rw [← hpl']; exact List.take_length) (fun _ => rfl) ho.2 ho.1
     simp only [mdNode, mdScan, mdState, htk, Node.leaves, map_mdLeaf_pre]
     refine ⟨h.1, ?_, ?_⟩
     · have := h.2
       rw [hlvl] at this
       exact take_of_take_succ hpl this
-    · intro _ hnb; exact absurd rfl (hnb _ k cs)
-  | .sect _ _ _ _, _, _, _, _, _, _, _, _, hs, _, _ => by simp [noSectionsNode] at hs
-  | .comment _ _, lvl, pfx, st, seen, _, _, htk, hst, _, _, _ => by
+    · intro _ hnb; simp [Node.isContainer] at hnb
+  | .sect _ _ k cs, lvl, pfx, st, seen, hl, hpl, htk, _, ho, _ => by
+    simp only [mdOrderedNode, Bool.and_eq_true] at ho
+    have hlvl : lvl + 1 - 2 = (lvl - 2) + 1 := by omega
+    have hpl' : (pfx ++ [k]).length = lvl + 1 - 2 := by simp [hpl, hlvl]
+    have h := mdChildren_scan fmt cs (lvl + 1) (pfx ++ [k]) (pfx ++ [k]) false (by omega) hpl'
+      (by rw [← hpl']; exact List.take_length) (fun _ => rfl) ho.2 ho.1
+    simp only [mdNode, mdScan, mdState, htk, Node.leaves, map_mdLeaf_pre]
+    refine ⟨h.1, ?_, ?_⟩
+    · have := h.2
+      rw [hlvl] at this
+      exact take_of_take_succ hpl this
+    · intro _ hnb; simp [Node.isContainer] at hnb
+  | .comment _ _, lvl, pfx, st, seen, _, _, htk, hst, _, _ => by
     simp only [mdNode, mdScan, mdState, Node.leaves, List.map_nil, true_and]
     exact ⟨htk, fun h _ => hst h⟩
 theorem mdChildren_scan (fmt : Value → Str) : ∀ (ns : List Node) (lvl : Nat) (pfx st : List Str) (seen : Bool),
     2 ≤ lvl → pfx.length = lvl - 2 → st.take (lvl - 2) = pfx → (seen = false → st = pfx) →
-    noSectionsList ns = true → mdOrderedList ns = true → assignsFirst seen ns = true →
+    mdOrderedList ns = true → assignsFirst seen ns = true →
     mdScan st (mdChildren fmt lvl ns) = (leavesList ns).map (mdLeaf fmt pfx)
       ∧ (mdState st (mdChildren fmt lvl ns)).take (lvl - 2) = pfx
-  | [], lvl, pfx, st, seen, _, _, htk, _, _, _, _ => by
+  | [], lvl, pfx, st, seen, _, _, htk, _, _, _ => by
     simp [mdChildren, mdScan, mdState, leavesList, htk]
-  | n :: ns, lvl, pfx, st, seen, hl, hpl, htk, hst, hs, ho, haf => by
-    simp only [noSectionsList, Bool.and_eq_true] at hs
+  | n :: ns, lvl, pfx, st, seen, hl, hpl, htk, hst, ho, haf => by
     simp only [mdOrderedList, Bool.and_eq_true] at ho
     -- split the ordering hypothesis between the head and the tail
     have hhead : assignsFirst seen [n] = true := by
       cases n <;> cases seen <;> simp_all [assignsFirst]
-    have hn := mdNode_scan fmt n lvl pfx st seen hl hpl htk hst hs.1 ho.1 hhead
+    have hn := mdNode_scan fmt n lvl pfx st seen hl hpl htk hst ho.1 hhead
     -- the flag for the tail
     have htail : ∃ seen', assignsFirst seen' ns = true ∧
         (seen' = false → mdState st (mdNode fmt lvl n) = pfx) := by
       cases n with
       | assign a k v =>
-        refine ⟨seen, ?_, fun h => hn.2.2 h (by intro _ _ _ hc; cases hc)⟩
+        refine ⟨seen, ?_, fun h => hn.2.2 h (by simp [Node.isContainer])⟩
         cases seen <;> simp_all [assignsFirst]
       | block a k cs => exact ⟨true, by simpa [assignsFirst] using haf, fun h => by cases h⟩
-      | sect a i k cs => simp [noSectionsNode] at hs
+      | sect a i k cs => exact ⟨true, by simpa [assignsFirst] using haf, fun h => by cases h⟩
       | comment a t =>
-        exact ⟨seen, by simpa [assignsFirst] using haf, fun h => hn.2.2 h (by intro _ _ _ hc; cases hc)⟩
+        exact ⟨seen, by simpa [assignsFirst] using haf, fun h => hn.2.2 h (by simp [Node.isContainer])⟩
     obtain ⟨seen', haf', hst'⟩ := htail
-    have ht := mdChildren_scan fmt ns lvl pfx (mdState st (mdNode fmt lvl n)) seen' hl hpl hn.2.1 hst' hs.2 ho.2 haf'
+    have ht := mdChildren_scan fmt ns lvl pfx (mdState st (mdNode fmt lvl n)) seen' hl hpl hn.2.1 hst' ho.2 haf'
     simp only [mdChildren, mdScan_append, mdState_append, leavesList, List.map_append, hn.1, ht.1, ht.2, and_self]
 end
 
